@@ -177,6 +177,9 @@ pub struct World {
     /// bytes per client address: (received by the server from it, sent by the server to it)
     pub bytes: HashMap<SocketAddr, (u64, u64)>,
     pub handshake_done: HashMap<SocketAddr, bool>,
+    syns_delivered: HashMap<SocketAddr, u64>,
+    instances: HashMap<SocketAddr, u64>,
+    reported_no_syn: bool,
     pub take_limit: Option<usize>,
     untracked_reported: bool,
     /// nonces the server has sent to each address in SYN-ACKs (from the wire)
@@ -268,6 +271,9 @@ impl World {
             keep_trace: true,
             bytes: HashMap::new(),
             handshake_done: HashMap::new(),
+            syns_delivered: HashMap::new(),
+            instances: HashMap::new(),
+            reported_no_syn: false,
             take_limit: None,
             untracked_reported: false,
             synack_nonces: HashMap::new(),
@@ -529,6 +535,10 @@ impl World {
                 if p.dst == self.server.addr {
                     let e = self.bytes.entry(p.src).or_insert((0, 0));
                     e.0 += p.data.len() as u64;
+                    // (the endpoint reads at most one MTU of a longer datagram)
+                    if let Some(RFrame::Syn { .. }) = decode(&p.data[..p.data.len().min(MAX_FRAME_SIZE)]) {
+                        *self.syns_delivered.entry(p.src).or_insert(0) += 1;
+                    }
                     if let Some(RFrame::Ack { nonce_ack }) = decode(&p.data) {
                         if self.synack_nonces.get(&p.src).map_or(false, |v| v.contains(&nonce_ack)) {
                             self.verified.insert(p.src, true);
@@ -633,6 +643,21 @@ impl World {
         let st = *self.server.conn_state.get(&addr).unwrap_or(&0);
         if st == 1 && ev == Ev::Error("timeout") {
             self.note_timeout(addr, true);
+        }
+        // every connection instance (or refused / timed-out attempt) the server reports begins with
+        // a SYN: after one has ended, the next Connect or handshake error for the address needs a
+        // SYN delivered to the server since then. A refusal that is not final, or a pending entry
+        // that outlives its terminal event, shows as a second instance without a new handshake.
+        if st != 1 && matches!(ev, Ev::Connect | Ev::Error(_)) {
+            let n = self.instances.entry(addr).or_insert(0);
+            *n += 1;
+            let n = *n;
+            let syns = self.syns_delivered.get(&addr).copied().unwrap_or(0);
+            if n > syns && !self.reported_no_syn {
+                self.reported_no_syn = true;
+                let t = self.now_ns / MS;
+                self.viol("C08", "server-instance-without-new-handshake", format!("server reported {:?} for {} at t={} ms: that is connection / attempt #{} it reports for the address, but only {} SYNs from it have ever been delivered (every instance begins with one)", ev, addr, t, n, syns));
+            }
         }
         let new = match (&ev, st) {
             (Ev::Connect, 0) | (Ev::Connect, 2) => 1,
